@@ -1202,6 +1202,15 @@ fn op_wdrop(h: WH) -> String {
     }
 }
 
+/// `DRIVE_MARK=1`: one `write(2, "@@<what> <i>\n")` (stderr is unbuffered, the text is
+/// formatted first, so this is a single system call).
+fn marker(enabled: bool, what: &str, i: u64) {
+    if enabled {
+        let text = format!("@@{what} {i}\n");
+        let _ = std::io::stderr().write_all(text.as_bytes());
+    }
+}
+
 fn main() {
     std::panic::set_hook(Box::new(|info| {
         let _ = writeln!(std::io::stderr(), "[drive] panic: {info}");
@@ -1217,9 +1226,13 @@ fn main() {
         eprintln!("drive: cannot create {}: {e}", scratch_arg.display());
         std::process::exit(2);
     }
+    // DRIVE_REUSE=1: accept an existing, non-empty scratch dir (inspection after a killed run).
+    let reuse = std::env::var_os("DRIVE_REUSE").is_some_and(|v| v == "1");
+    // DRIVE_MARK=1: `@@OP <i>` / `@@END <i>` markers on fd 2 around every op (for strace logs).
+    let mark = std::env::var_os("DRIVE_MARK").is_some_and(|v| v == "1");
     match std::fs::read_dir(scratch_arg) {
         Ok(mut rd) => {
-            if rd.next().is_some() {
+            if !reuse && rd.next().is_some() {
                 eprintln!("drive: scratch dir {} is not empty", scratch_arg.display());
                 std::process::exit(2);
             }
@@ -1243,9 +1256,16 @@ fn main() {
             std::process::exit(2);
         }
     };
+    let make_dir = |name: &str| -> std::io::Result<()> {
+        if reuse && Path::new(name).is_dir() {
+            Ok(())
+        } else {
+            std::fs::create_dir(name)
+        }
+    };
     if let Err(e) = std::env::set_current_dir(&scratch)
-        .and_then(|_| std::fs::create_dir("out"))
-        .and_then(|_| std::fs::create_dir("tgt"))
+        .and_then(|_| make_dir("out"))
+        .and_then(|_| make_dir("tgt"))
     {
         eprintln!("drive: cannot set up {scratch_str}: {e}");
         std::process::exit(2);
@@ -1272,6 +1292,8 @@ fn main() {
     let mut input = stdin.lock();
     let stdout = std::io::stdout();
     let mut raw = Vec::new();
+    // Number of ops executed so far (comments / blank lines are not counted).
+    let mut op_index: u64 = 0;
     loop {
         raw.clear();
         match input.read_until(b'\n', &mut raw) {
@@ -1286,12 +1308,16 @@ fn main() {
             raw.pop();
         }
         let result = match std::str::from_utf8(&raw) {
-            Err(_) => Bad::Line.line().to_string(),
+            Err(_) => {
+                marker(mark, "OP", op_index);
+                Bad::Line.line().to_string()
+            }
             Ok(line) => {
                 let line = line.trim();
                 if line.is_empty() || line.starts_with('#') {
                     continue;
                 }
+                marker(mark, "OP", op_index);
                 wd_set(Some(Instant::now()));
                 // Outer safety net; every library call has its own catch_unwind.
                 let r = catch_unwind(AssertUnwindSafe(|| st.exec(line)))
@@ -1305,6 +1331,9 @@ fn main() {
             // Nobody is listening any more.
             std::process::exit(1);
         }
+        drop(o);
+        marker(mark, "END", op_index);
+        op_index += 1;
     }
 
     // Drop whatever is still open (destructors may panic after earlier panics).
